@@ -104,7 +104,7 @@ class Adapter:
         """final tensors the problem definition needs (schedules ...), row r"""
         return {}
 
-    monitor_props = {"Step": "C08", "Final": "C07"}
+    monitor_props = {"Step": "C08", "Final": "C07", "PadState": "C08"}
 
     # ---- behaviour -------------------------------------------------------
     def pad_choice(self, mask):
